@@ -10,7 +10,7 @@ from concurrent.futures import ThreadPoolExecutor
 
 VERIF = os.path.dirname(os.path.dirname(os.path.abspath(__file__)))
 COQ = os.path.join(VERIF, 'coq')
-RUN = os.path.join(COQ, 'run')
+RUN = os.path.join(COQ, 'run', 'p%d' % os.getpid())    # one scratch directory per check process: concurrent runs never share files
 REPO = os.environ.get('EQSIG_REPO', '/repo')
 EVID = os.environ.get('VERIF_EVIDENCE_DIR') or os.path.join(VERIF, 'evidence')   # seeded-change trials write elsewhere
 REPLAYS = os.path.join(VERIF, 'replays')
@@ -20,6 +20,14 @@ os.environ.setdefault('PYTHONHASHSEED', '0')
 os.environ['ENG_TOOLS_EQSIG_VERIF'] = '1'
 if REPO not in sys.path:
     sys.path.insert(0, REPO)
+
+def _cleanup_run():
+    if not os.environ.get('VERIF_KEEP_RUN'):
+        shutil.rmtree(RUN, ignore_errors=True)
+
+
+import atexit
+atexit.register(_cleanup_run)
 
 # axioms the standard library itself declares and that this development is allowed to depend on
 ALLOWED_AXIOMS = {
